@@ -249,7 +249,10 @@ def handleEval (withFix : Bool) (fields : List String) : Verdict :=
             else some "the parser built a different tree than the one that was printed"
           let o2 := semOracle g r
           let o3 := if withFix then fixOracle g r else none
-          { modelOk, modelOut := showOpt m, oracle := orElse o2 (orElse o3 o1), nontrivial := r.isChoice }
+          -- the diagram handed out is ordered by the variable ids and reduced, and it is the model's diagram
+          let o0 := if decide (ROBDD r) then none else some "the diagram returned is not ordered by the variable ids and reduced"
+          let modelOk := modelOk && (match m with | some m => decide (m = r) || !decide (ROBDD r) | none => true)
+          { modelOk, modelOut := showOpt m, oracle := orElse o0 (orElse o2 (orElse o3 o1)), nontrivial := r.isChoice }
   | _ => Verdict.badLine "eval line needs three fields"
 
 def handleC01 (fields : List String) : Verdict :=
